@@ -345,7 +345,7 @@ def run(res, ctx):
     inputs = []   # (name, case, harness case, why)
     for name, case, why in witness_inputs(rng):
         inputs.append((name, case, costs.harness_case(case), {why}))
-    n_gen = 300 if tier == "quick" else 3000
+    n_gen = 600 if tier == "quick" else 3000
     gen = []
     for k in range(n_gen):
         r = rng.random()
@@ -381,7 +381,7 @@ def run(res, ctx):
             st["order_sensitive_cases"] += 1
             chosen.append(("generated-%d" % k, c, hc, sens))
     # keep a bounded, site-balanced selection of the sensitive generated cases
-    budget = 14 if tier == "quick" else 120
+    budget = 24 if tier == "quick" else 120
     per_site = collections.Counter()
     picked = []
     for item in chosen:
